@@ -1,8 +1,12 @@
 import Driver.Core
 import Pymeeus.Gen.Q.EpochRelig
 import Pymeeus.Gen.F.EpochRelig
+import Pymeeus.Spec.Computus
+import Pymeeus.Spec.Hebrew
+import Pymeeus.Spec.Islamic
 /-
-Driver handlers of the religious-calendar model (property C19).
+Driver handlers of the religious-calendar model (property C19).  The `spec_*` entries run the Lean
+specifications themselves, so that the harness can compare them with its independent oracles.
 -/
 namespace Driver
 open Pymeeus
@@ -16,6 +20,12 @@ def epochReligQ : Handler := fun fn a =>
   | "moslem2gregorian" => some <| out (GenQ.moslem2gregorian a[0]!.i a[1]!.i a[2]!.i)
   | "gregorian2moslem" => some <| out (GenQ.gregorian2moslem a[0]!.i a[1]!.i a[2]!.i)
   | "relig_doy2date_julian" => some <| out (GenQ.relig_doy2date_julian a[0]!.i a[1]!.i)
+  | "spec_easter" => some <| out (Spec.Computus.easter a[0]!.i)
+  | "spec_rosh_hashanah" => some <| out (Spec.Hebrew.roshHashanah a[0]!.i)
+  | "spec_nisan15" => some <| out (Spec.Hebrew.nisan15 a[0]!.i)
+  | "spec_islamic_jdn" => some <| out (Spec.Islamic.jdn a[0]!.i a[1]!.i a[2]!.i)
+  | "spec_islamic_valid" => some <| out (decide (Spec.Islamic.Valid a[0]!.i a[1]!.i a[2]!.i))
+  | "spec_islamic_next" => some <| out (Spec.Islamic.next a[0]!.i a[1]!.i a[2]!.i)
   | "relig_dow" => some <| out (GenQ.relig_dow a[0]!.q)
   | "relig_dow_ymd" => some <| out (match GenQ.epoch_ymd a[0]!.i a[1]!.i a[2]!.q with
         | .error e => (.error e : PyRes Int)
